@@ -14,7 +14,9 @@ RULE = (
     "(requested) the C03 text space x five ways of asking for copy_all {init keyword layout=, config text 'copy_all', "
     "config text 'layout.copy_all', Config object, parse(layout='copy_all') committed and not} x other settings; "
     "(fallback) texts built to leave no other option - no Twp/Rge, no numbered section, colon-less sections under "
-    "sec_colon_required, the section preceded by of/in in a section-first layout; (no_double) the C03 space "
+    "sec_colon_required, the section preceded by of/in in a section-first layout; (segmented) 2..3 Twp/Rge segments under `segment`, "
+    "each normal, colon-less under sec_colon_required, without a section or with a bare section word: a segment that has no other "
+    "option gives exactly one tract carrying that segment's text (never the complete text, never a borrowed section); (no_double) the C03 space "
     "under all settings, checking that no two tracts carry the complete text. Non-trivial: the text contains something a "
     "normal layout would split (a section-like and a Twp/Rge-like token), or a fallback is taken. Distinct = distinct case."
 )
@@ -180,6 +182,78 @@ def oracle_no_double(c):
     return []
 
 
+# fallbacks inside a segmented parse: each Twp/Rge segment falls back on its own ------------------------------------------
+
+SEG_SHAPES = ["normal", "normal", "colonless", "no_section", "secword_only"]
+SEG_CASE = st.fixed_dictionaries({
+    "segs": st.lists(st.fixed_dictionaries({"shape": st.sampled_from(SEG_SHAPES), "block": _BLOCKS, "block2": _BLOCKS, "sec": st.integers(1, 35), "secw": _SECW,
+                                            "two": st.booleans()}), min_size=2, max_size=3),
+    "twp0": st.integers(1, 900), "sep": st.sampled_from(["\n", "\n\n", "; ", ", "]),
+    "extra": st.sampled_from(["", "", "sec_within", "parse_qq", "sec_colon_cautious"]),
+})
+
+
+def seg_texts(c):
+    out = []
+    for i, g in enumerate(c["segs"]):
+        tr = f"T{c['twp0'] + i}N-R97W"
+        if g["shape"] == "normal":
+            body = f"{g['secw']} {g['sec']}: {g['block']}" + (f", {g['secw']} {g['sec'] + 1}: {g['block2']}" if g["two"] else "")
+        elif g["shape"] == "colonless":
+            body = f"{g['secw']} {g['sec']} {g['block']}" + (f", {g['secw']} {g['sec'] + 1} {g['block2']}" if g["two"] else "")
+        elif g["shape"] == "no_section":
+            body = g["block"]
+        else:
+            body = f"{g['secw']}" + (f" {g['block']}" if g["two"] else "")
+        out.append(f"{tr} {body}")
+    return out
+
+
+def seg_config(c):
+    parts = ["segment"]
+    if any(g["shape"] == "colonless" for g in c["segs"]):
+        parts.append("sec_colon_required")
+    if c["extra"] and not (c["extra"] == "sec_colon_cautious" and "sec_colon_required" in parts):
+        parts.append(c["extra"])
+    return ",".join(parts)
+
+
+def oracle_segmented(c):
+    segs = seg_texts(c)
+    text = c["sep"].join(segs)
+    cfg = seg_config(c)
+    d = PLSSDesc(text, config=cfg)
+    got = [(t.trs, t.desc) for t in d.tracts]
+    ctx = dict(text=text, config=cfg, got=got, e_flags=list(d.e_flags), shapes=[g["shape"] for g in c["segs"]])
+    fails = []
+    pp = d.pp_desc
+    whole = [t for t in d.tracts if t.desc == pp]
+    if len(whole) > 1:
+        fails.append(Failure("segmented_two_whole", f"{text!r} [{cfg}]: {len(whole)} tracts carry the complete text", **ctx))
+    if not any(g["shape"] == "normal" for g in c["segs"]):
+        return fails            # (which segments are recognised at all then depends on the layout deduced for the text as a whole)
+    # every fallback segment: exactly one tract, under that segment's Twp/Rge, carrying that segment's text and nothing of the others
+    for i, (g, seg) in enumerate(zip(c["segs"], segs)):
+        twprge = f"{c['twp0'] + i}n97w"
+        mine = [t for t in d.tracts if t.twprge == twprge]
+        if g["shape"] == "normal":
+            want = [f"{g['sec']:02d}"] + ([f"{g['sec'] + 1:02d}"] if g["two"] else [])
+            if [t.sec for t in mine] != want:
+                fails.append(Failure("segmented_normal_segment", f"{text!r} [{cfg}]: segment {seg!r} gives sections {[t.sec for t in mine]}, expected {want}", **ctx))
+            continue
+        if len(mine) != 1:
+            fails.append(Failure("segmented_fallback_count", f"{text!r} [{cfg}]: segment {seg!r} ({g['shape']}) gives {len(mine)} tracts {[(t.trs, t.desc) for t in mine]}, expected one", **ctx))
+            continue
+        t = mine[0]
+        if t.desc == pp or not whole_text_modulo_cleanup(t.desc, seg):
+            fails.append(Failure("segmented_fallback_desc", f"{text!r} [{cfg}]: the fallback tract of segment {seg!r} is described {t.desc!r}", **ctx))
+        if t.sec_num is None and not d.e_flags:
+            fails.append(Failure("segmented_fallback_no_error_flag", f"{text!r} [{cfg}]: fallback tract {t.trs} without any error flag", **ctx))
+        if g["shape"] in ("no_section", "secword_only") and t.sec_num is not None:
+            fails.append(Failure("segmented_fallback_borrowed_section", f"{text!r} [{cfg}]: segment {seg!r} names no section but its tract is {t.trs}", **ctx))
+    return fails
+
+
 SUBS = [
     Sub("requested", oracle_requested, strategy=lambda tier: REQ_CASE, classes=classes_requested,
         nontrivial=lambda c: bool(TR_LIKE.search(c["text"]["text"]) and SEC_LIKE.search(c["text"]["text"])),
@@ -190,6 +264,12 @@ SUBS = [
         render=lambda c: {"text": c["text"], "config": configs.to_text(c["cfg"]), "reason": c["reason"]},
         n={"quick": 800, "thorough": 10000}, shards={"quick": 4, "thorough": 16},
         essential=("reason=no_twprge", "reason=no_section", "reason=colon_required", "reason=illegal_prior", "reason=secword_without_number", "segment", "sec_within")),
+    Sub("segmented", oracle_segmented, strategy=lambda tier: SEG_CASE,
+        classes=lambda c: [f"shape={g['shape']}" for g in c["segs"]] + [f"extra={c['extra']}", f"nsegs={len(c['segs'])}"],
+        nontrivial=lambda c: any(g["shape"] != "normal" for g in c["segs"]) and any(g["shape"] == "normal" for g in c["segs"]),
+        render=lambda c: {"text": c["sep"].join(seg_texts(c)), "config": seg_config(c)},
+        n={"quick": 600, "thorough": 8000}, shards={"quick": 4, "thorough": 16},
+        essential=("shape=colonless", "shape=no_section", "shape=secword_only", "nsegs=3")),
     Sub("no_double", oracle_no_double, strategy=lambda tier: parsing.CASE, classes=parsing.text_classes,
         nontrivial=lambda c: _last.get("n", 0) >= 1 and bool(c["cfg"]),
         render=parsing.render, n={"quick": 800, "thorough": 10000}, shards={"quick": 6, "thorough": 16}, text_keys=("text",)),
